@@ -87,6 +87,15 @@ for _a in FD_NAMES:
         FD_PARTNERS[_a] = _pa
 
 
+# ordinary Python subclasses of every fixeddict type (module level, so that
+# they pickle by reference): "a dictionary of the same type" includes them
+FD_SUBTYPES = {}
+for _n in FD_NAMES:
+    _sub = type("Sub" + _n, (FD_TYPES[_n],), {"__module__": __name__})
+    globals()["Sub" + _n] = _sub
+    FD_SUBTYPES[_n] = _sub
+
+
 class C27(Spec):
     prop = "C27"
     sim = "D"
@@ -154,9 +163,14 @@ class C27(Spec):
                 ops.append({"op": o, "k": key()})
             else:
                 ops.append({"op": o})
-        return {"type": tname, "ops": ops}
+        case = {"type": tname, "ops": ops}
+        if rng.random() < 0.12:
+            case["subclass"] = True  # the object is an instance of a plain subclass of the type
+        return case
 
     def shrink(self, case):
+        if case.get("subclass"):
+            yield {k: v for k, v in case.items() if k != "subclass"}
         for ops in shrink_list(case["ops"]):
             yield dict(case, ops=ops)
         for i, o in enumerate(case["ops"]):
@@ -167,9 +181,12 @@ class C27(Spec):
     def execute(self, case):
         stats = Counter()
         cls = FD_TYPES.get(case["type"])
-        events = [("case", case["type"], repr(case["ops"]))]
+        events = [("case", case["type"], repr(case["ops"]), case.get("subclass"))]
         if cls is None:
             return Outcome(DISCARD, events, stats={"discard:unknown-type": 1})
+        if case.get("subclass"):
+            cls = FD_SUBTYPES[case["type"]]
+            stats["subclass-instances"] += 1
         declared = set(cls.entry_objs)
         d = None
         model = {}
@@ -1162,7 +1179,7 @@ class C21(Spec):
     def generate(self, rng, idx, tier):
         prog = gen_program(rng)
         fault = rng.choice(["none", "none", "none", "truncate", "delete", "delete_default", "unused", "unused_list", "junk_list", "default_and_unused", "reuse", "unclosed_bb", "unclosed_sub"])
-        return {"prog": prog, "bits_seed": rng.randrange(1 << 30), "nbytes": rng.choice([64, 64, 200]), "fault": fault, "fsel": rng.randrange(1 << 16), "ones": rng.random() < 0.2, "plain": rng.random() < 0.5}
+        return {"prog": prog, "bits_seed": rng.randrange(1 << 30), "nbytes": rng.choice([64, 64, 200]), "fault": fault, "fsel": rng.randrange(1 << 16), "ones": rng.random() < 0.2, "plain": rng.random() < 0.5, "le_bitarrays": rng.random() < 0.25}
 
     def shrink(self, case):
         def variants(prog):
@@ -1408,6 +1425,25 @@ class C21(Spec):
                 fault = "none"
                 ctx_in = plainify(_copy.deepcopy(ctx1))
             stats["serialised-from-plain-dicts"] += 1
+        if case.get("le_bitarrays"):
+            # equal descriptions must serialise to equal bytes: every bit-array
+            # value is replaced by an equal array of the other bit-endianness
+            nle = [0]
+
+            def _le(x):
+                if isinstance(x, bitarray):
+                    nle[0] += 1
+                    return bitarray(x.to01(), endian="little")
+                if isinstance(x, dict):
+                    for k_ in list(x):
+                        x[k_] = _le(x[k_])
+                elif isinstance(x, list):
+                    for i_ in range(len(x)):
+                        x[i_] = _le(x[i_])
+                return x
+
+            ctx_in = _le(ctx_in)
+            stats["little-endian-bitarray-values"] += nle[0]
         g = SimFile()
         wtr = BitstreamWriter(g)
         ser = None
